@@ -107,7 +107,11 @@ func c09exec(j run.Job, a *run.Acc) {
 		for i, n := range pre {
 			fs.AddFile(text.NewFile(fmt.Sprintf("pre%d", i), make([]byte, n)))
 		}
-		f := text.NewFile("f", raw)
+		mine := append([]byte{}, raw...) // the caller's own buffer ...
+		f := text.NewFile("f", mine)
+		for i := range mine { // ... which the caller reuses for something else right after NewFile: the file must have its own copy
+			mine[i] ^= 0x5a
+		}
 		var rd *text.Reader
 		if seedCase%2 == 1 { // both legal construction orders: reader before / after the file joins the set
 			rd = text.NewReader(f)
